@@ -91,16 +91,15 @@ func bitField(nd data.UnixFSData) (bitfield.Bitfield, error) {
 	if fanout > maximumHamtWidth {
 		return nil, fmt.Errorf("hamt witdh (%d) exceed maximum allowed (%d)", fanout, maximumHamtWidth)
 	}
-	bf, err := bitfield.NewBitfield(fanout)
-	if err != nil {
-		return nil, err
-	}
 	// an absent Data field is an all-zero bitfield: protobuf encoders omit an
 	// empty optional bytes field, so this is how an empty shard is written
+	var bits []byte
 	if nd.FieldData().Exists() {
-		bf.SetBytes(nd.FieldData().Must().Bytes())
+		bits = nd.FieldData().Must().Bytes()
 	}
-	return bf, nil
+	// FromBytes reports a bitfield longer than the fanout as an error
+	// (Bitfield.SetBytes panics on it)
+	return bitfield.FromBytes(fanout, bits)
 }
 
 func checkLogTwo(v int) error {
